@@ -8,6 +8,8 @@ import (
 	"fmt"
 	"io"
 	"math/rand"
+	"os"
+	"path/filepath"
 	"strings"
 
 	mxj "github.com/clbanning/mxj/v2"
@@ -589,6 +591,9 @@ func (c13) Case(c *core.Ctx) {
 		}
 	}
 	c.Count("streams-swept-exhaustively")
+	if len(ds) >= 2 && (c.Index/len(c13apiList))%2 == 0 {
+		c13fileResume(c, api, stream, ds, wantFp)
+	}
 	// random multi-fault schedules with chunking
 	nr := 4
 	if c.Thorough() {
@@ -605,6 +610,117 @@ func (c13) Case(c *core.Ctx) {
 		}
 		c13run(c, api, stream, ds, wantFp, c13sched{zeroAt: za, eofWith: r.Intn(2) == 0, caps: caps, stopAt: stopAt}, c.Verbose)
 	}
+}
+
+// c13fileResume: the same stream in an *os.File. The API consumes documents 0..k (a handler stops after document k,
+// a loop API is simply called k+1 times); the caller then continues on the SAME file with the plain reader: it must get
+// documents k+1.. in order and io.EOF - nothing may have been read ahead and thrown away - and the file offset after the
+// first phase must lie within [end of document k, start of document k+1].
+func c13fileResume(c *core.Ctx, api c13api, stream string, ds []docSpan, wantFp []string) {
+	if api.byteSrc != "" || strings.HasPrefix(api.name, "x2j-wrapper.XmlMsgsFromReader") {
+		return
+	}
+	fn := filepath.Join(c19scratch(), "c13.stream")
+	if err := os.WriteFile(fn, []byte(stream), 0o644); err != nil {
+		c.Harness("c13: " + err.Error())
+		return
+	}
+	defer os.Remove(fn)
+	fh, err := os.Open(fn)
+	if err != nil {
+		c.Harness("c13: " + err.Error())
+		return
+	}
+	defer fh.Close()
+	k := c.R.Intn(len(ds) - 1) // stop after document k (< last)
+	c.Eval()
+	c.Count("file-resume-checks")
+	c.NonTrivial(stream, api.name, fmt.Sprint("file-resume", k))
+	det := core.D{"api": api.name, "stream": stream, "source": "*os.File", "first_phase_consumes_documents": k + 1}
+	var res runResult
+	if api.handler {
+		res = api.run(fh, &hostileReader{}, k)
+	} else {
+		hr := &hostileReader{}
+		for i := 0; i <= k; i++ {
+			r1 := loopOnce(api, fh)
+			if r1.finalErr != nil {
+				det["err"] = r1.finalErr.Error()
+				c.Violate("c13-file-doc-error", api.name+": reading a well-formed stream from an *os.File failed", det)
+				return
+			}
+			res.deliveries = append(res.deliveries, r1.deliveries...)
+		}
+		_ = hr
+	}
+	if len(res.deliveries) != k+1 {
+		det["delivered"] = len(res.deliveries)
+		c.Violate("c13-file-count", api.name+": wrong number of documents delivered from an *os.File before the stop", det)
+		return
+	}
+	for i := 0; i <= k; i++ {
+		if res.deliveries[i].fp != wantFp[i] {
+			c.Violate("c13-file-map", api.name+": a document read from an *os.File differs from decoding its bytes", det)
+			return
+		}
+	}
+	off, _ := fh.Seek(0, io.SeekCurrent)
+	det["file_offset_after_first_phase"] = off
+	if int(off) < ds[k].end || int(off) > ds[k+1].start {
+		c.Violate("c13-file-overread", fmt.Sprintf("%s: after document #%d the *os.File offset %d is outside [%d, %d]: bytes of the following documents were consumed", api.name, k, off, ds[k].end, ds[k+1].start), det)
+		return
+	}
+	// resume on the same file with the plain reader of the same codec
+	for i := k + 1; i <= len(ds); i++ {
+		var m interface{}
+		var e error
+		switch {
+		case api.json:
+			m, e = mxj.NewMapJsonReader(fh)
+		case api.seq:
+			m, e = mxj.NewMapXmlSeqReader(fh)
+		default:
+			m, e = mxj.NewMapXmlReader(fh)
+		}
+		if i == len(ds) {
+			if e != io.EOF {
+				det["err"] = fmt.Sprint(e)
+				c.Violate("c13-file-resume", api.name+": resuming on the same *os.File did not end with io.EOF", det)
+			}
+			return
+		}
+		if e != nil || jv.Fp(m) != wantFp[i] {
+			det["err"], det["resumed_document"] = fmt.Sprint(e), i
+			c.Violate("c13-file-resume", api.name+": the caller resuming on the same *os.File does not get the following documents (they were read ahead and lost)", det)
+			return
+		}
+	}
+}
+
+// loopOnce performs exactly one call of a loop API.
+func loopOnce(api c13api, src io.Reader) runResult {
+	var m interface{}
+	var err error
+	switch api.name {
+	case "NewMapXmlReader":
+		m, err = mxj.NewMapXmlReader(src)
+	case "NewMapXmlReaderRaw":
+		m, _, err = mxj.NewMapXmlReaderRaw(src)
+	case "NewMapXmlSeqReader":
+		m, err = mxj.NewMapXmlSeqReader(src)
+	case "NewMapXmlSeqReaderRaw":
+		m, _, err = mxj.NewMapXmlSeqReaderRaw(src)
+	case "NewMapJsonReader":
+		m, err = mxj.NewMapJsonReader(src)
+	case "NewMapJsonReaderRaw":
+		m, _, err = mxj.NewMapJsonReaderRaw(src)
+	default:
+		m, err = x2jw.ToMap(src)
+	}
+	if err != nil {
+		return runResult{finalErr: err}
+	}
+	return runResult{deliveries: []delivery{{fp: jv.Fp(m)}}}
 }
 
 // stripWSInsideOnly returns the concatenation of the contents of JSON strings (to see whether braces occur inside strings).
